@@ -503,23 +503,31 @@ def mag_inv(ctx):
                              construct='magnification formula'))
     f = P.func('Paraxial.invariant')
     res.saw(f)
-    ev, info, sym = _ret_eval(P, f)
-    r = ev.returned
-    ok = False
-    if isinstance(r, Rat):
-        idx = {a[a.index('['):] for a in r.atoms() if '[' in a}
-        if len(idx) == 1:
-            i = idx.pop()
-            want = A('NIDX' + i) * (A('YB' + i) * A('UA' + i) -
-                                    A('YA' + i) * A('UB' + i))
-            ok = rat_eq(r, want)
-    if ok:
-        res.ok('invariant == n (yb ua - ya ub) at one surface')
-    else:
-        res.fail(ctx.finding('MAG-INV', f, f.node,
-                             f'invariant = {r} is not n (ybar u - y ubar) '
-                             f'evaluated at a single surface',
-                             construct='invariant formula'))
+    from ..rat import explore
+    try:
+        outs = explore(lambda ch: _ret_eval(P, f, choose=ch))
+    except Inconclusive as e:
+        raise AnalysisError(f'Paraxial.invariant: {e}')
+    for dec, (ev, info, sym) in outs:
+        r = ev.returned
+        ok = False
+        if isinstance(r, Rat):
+            idx = {a[a.index('['):] for a in r.atoms() if '[' in a}
+            if len(idx) == 1:
+                i = idx.pop()
+                want = A('NIDX' + i) * (A('YB' + i) * A('UA' + i) -
+                                        A('YA' + i) * A('UB' + i))
+                ok = rat_eq(r, want)
+        tag = f' (branch decisions {dec})' if dec else ''
+        if ok:
+            res.ok('invariant == n (yb ua - ya ub) at one surface' + tag)
+        else:
+            res.fail(ctx.finding('MAG-INV', f, f.node,
+                                 f'invariant = {r} is not n (ybar u - y ubar) '
+                                 f'evaluated at a single surface' + tag +
+                                 ': records 0 are the launch state at the '
+                                 'first surface, not the object',
+                                 construct='invariant formula'))
     # marginal ray
     f = P.func('Paraxial.marginal_ray')
     res.saw(f)
@@ -885,5 +893,13 @@ def chief_ray(ctx):
     return res
 
 
-RULES = [no_stale, records, chief_ray, parax_eq, invariant_step, parax_linear, crossing, signed_return,
+def c01_media_chain(ctx):
+    """shared with C01: the prescription this property reads (media on both
+    sides of each surface, placement and tilt of the surface frames) is the
+    one the editing API was given."""
+    from .C01 import media_chain as _r
+    return _r(ctx)
+
+
+RULES = [c01_media_chain, no_stale, records, chief_ray, parax_eq, invariant_step, parax_linear, crossing, signed_return,
          fno_epd, mag_inv, inverted4, object_position]
